@@ -2184,7 +2184,9 @@ struct Value {
             }
 
             default: {
-                number_.Natural = SizeT64{0};
+                // A number only uses half of the union; clear all of it so the value can become an empty
+                // container or string next (a value constructed from a number never initialized the rest).
+                Memory::Initialize(&array_);
             }
         }
     }
